@@ -753,9 +753,12 @@ where
                     //now we can empty the buffer (on next iteration of the main loop)
                     self.emptybuffer = true;
                     // but first we prune unneeded items:
-                    if self.end < 0 && self.begin < 0 {
-                        //discard items from the begin which we do not want
-                        for _ in 0..self.begin.abs() {
+                    if self.begin < 0 && self.end != 0 {
+                        //the buffer starts at the very first item: discard everything that
+                        //precedes the begin (which is relative to the end, now known)
+                        let total = self.cursor as usize;
+                        let skip = total.saturating_sub(self.begin.unsigned_abs());
+                        for _ in 0..skip.min(self.buffer.len()) {
                             self.buffer.pop_front();
                         }
                     }
